@@ -6,6 +6,9 @@ CONSTANTS
   Topos <- ToposAll
   Strict = TRUE
   Breaker = TRUE
+  RejectKinds = {"open", "limit"}
+  CancelSet <- CancelFree
+  CtxKinds = {"cancel", "deadline"}
   KeepSeen = FALSE
   BudgetSet = {0}
 INVARIANT TypeOK
